@@ -756,6 +756,31 @@ def _starts_idle(ctx, acm):
                '_is_active is set to a constant, True only by _first_sync '
                '(%s in %s)' % (N.txt(val), func.name),
                construct='activation only through the first sync')
+    # ... and an activation always synchronises, whatever the cache holds:
+    # an empty cache is exactly the case in which every running container
+    # has to be handed to clean-up
+    for func, sub in stores:
+        if not (isinstance(sub.value, ast.Constant) and
+                sub.value.value is True):
+            continue
+        fgraph = ctx.cfg(func)
+        at = [n for n in fgraph.nodes if n.kind == 'stmt' and
+              isinstance(n.ast, ast.Assign) and any(
+                  N.txt(t) == 'self._is_active' for t in n.ast.targets) and
+              isinstance(n.ast.value, ast.Constant) and
+              n.ast.value.value is True]
+        syncs = [n for n, _c in K.nodes_calling(
+            fgraph, lambda c: K.is_meth(c, '_synchronize') and
+            K.recv_text(c) == 'self')]
+        for node in at:
+            path = K.find_path(node, [fgraph.exit],
+                               cut_node=lambda n: n in syncs,
+                               follow_exc=False)
+            ctx.ob('C13.5', func, node, bool(syncs) and path is None,
+                   'an activation is followed by a synchronisation on every '
+                   'path (also when the cache is empty)',
+                   path=K.describe(path) if path else None,
+                   construct='activation always synchronises')
     run = acm.methods.get('run')
     ctx.require(run is not None, 'AppCfgMgr.run', rule='C13.5')
     first = [sub for f, sub in stores if f is run]
@@ -1011,7 +1036,44 @@ def _owner_package(ctx):
                    ignore=other_env)
 
 
+def _cleanup_link_last(ctx):
+    """C13.2: the clean-up link is the only mark that says "this container
+    is being cleaned up" - the resynchronisation of the configuration
+    manager reads it to tell such a container from one that never started.
+    The clean-up service therefore removes the link last: nothing of the
+    clean-up (the runtime's finish) runs after the removal."""
+    mod = ctx.index.module('treadmill.cleanup')
+    cls = mod.classes.get('Cleanup')
+    ctx.require(cls is not None, 'cleanup.Cleanup', rule='C13.2')
+    sites = 0
+    for func in cls.live_methods():
+        if not any(K.is_meth(c, 'finish') for c in K.calls(func.node)):
+            continue
+        graph = ctx.cfg(func)
+        removals = []
+        for node, call in K.nodes_calling(
+                graph, lambda c: K.callee_text(c) in (
+                    'fs.rm_safe', 'os.unlink', 'os.remove') and c.args):
+            if 'cleanup_dir' in K.rtxt(func, call.args[0]):
+                removals.append(node)
+        finishes = [n for n, _c in K.nodes_calling(
+            graph, lambda c: K.is_meth(c, 'finish'))]
+        ctx.require(removals, 'removal of the clean-up link in %s' %
+                    func.qualname, rule='C13.2', func=func)
+        for node in removals:
+            sites += 1
+            after = C.reach_after(node, edge_ok=C.no_exc)
+            late = [f for f in finishes if f in after]
+            ctx.ob('C13.2', func, node, not late,
+                   'the clean-up link is removed after the clean-up has run '
+                   '(no finish() is reachable after the removal)',
+                   construct='clean-up link removed last')
+    ctx.require(sites >= 1, 'routine of Cleanup that runs finish() and '
+                'removes the link', rule='C13.2')
+
+
 def check(ctx):
+    _cleanup_link_last(ctx)
     # whole-package OWNER clauses: cheap enough for every run (one parse of
     # the package, a text prefilter per module)
     _owner_package(ctx)
